@@ -1,5 +1,6 @@
 """C02 - repair of any truncated archive is sound."""
 from lib.common import *
+from checks.rloop_common import run_rloop
 from checks.repair_common import *
 
 CLAUSES = {"NoPanic", "Opens", "NamesOriginal", "Prefix", "FinishedIdentical", "EndOnlyIfComplete"}
@@ -33,6 +34,8 @@ def main(tier):
                              cuts="windows", window=w, **s))
     traces = run_repair_sweeps(jobs, "s20", "c02", shard=4)
     validate_repair_traces(v, "C02", traces, ev, CLAUSES)
+    # implementation-level model of the repair loop (spec/RepairLoop.tla): every behaviour replayed on convert_to_archive
+    run_rloop(v, "C02", tier, ev)
     cov = dict(states=res.distinct + ev.get("trace_states", 0), transitions=res.generated,
                traces_validated_against_impl=ev.get("traces", 0), repairs_validated=ev.get("repairs", 0),
                archives=ev.get("scenarios", 0), writer_scenarios_available=len(scens),
@@ -40,5 +43,6 @@ def main(tier):
                rule="archives = finalized behaviours of the Writer model; every truncation length 0..len of each, "
                     "4 layer stackings, both modes when encrypted; every repair result checked by TLC against RepairSpec",
                exhaustive=False)
+    cov["repair_loop_model"] = ev.get("rloop")
     return v.finish("model_checking", cov, assumptions=["scaled constants CHUNK=20 BLOCK=48 FS_CACHE=5 REPAIR_CACHE=32",
                                                         "subset of the Writer scenarios chosen by VERIF_SEED"])
